@@ -50,6 +50,9 @@ def compute_target(target, settings=None, tmpdir=None):
         from sfc_models.equation_solver import EquationSolver
         s = EquationSolver(run_equation_reduction=target['reduction'])
         s.MaxIterations = 4000
+        if target.get('funcs'):
+            s.AddFunction('half', lambda v: 0.5 * v)
+            s.AddFunction('damp', lambda a, b: 0.25 * a + 0.125 * b)
         if settings.get('trace') is not None:
             s.TraceStep = settings['trace']
         if settings.get('logging') and tmpdir:
@@ -107,11 +110,17 @@ class C17(object):
             return {'kind': 'reparse', 'A': G.render(a), 'B': G.render(b),
                     'B_names': sorted(set(G.all_value_names(b) + [d['name'] for d in b['decos']] + ['k', 't'])),
                     'reduction': rng.random() < 0.5, 'solve_A': rng.random() < 0.8}
-        if rng.random() < 0.6:
+        if rng.random() < 0.5:
             target = {'type': 'book', 'name': rng.choice(BOOKS), 'maxtime': rng.randint(2, 8)}
         else:
             spec = G.gen_affine(rng, rho=rng.choice([0.3, 0.6]), tol=1e-9, maxtime=rng.randint(1, 8))
             target = {'type': 'block', 'text': G.render(spec), 'reduction': rng.random() < 0.5}
+            if rng.random() < 0.5:
+                # a block that uses user-defined functions (registered with AddFunction)
+                x = spec['simul'][0]['name']
+                nm = G.fresh_names(rng, 2, avoid=G.all_value_names(spec) + [d['name'] for d in spec['decos']])
+                target['text'] = ('%s = half(%s) + 1.0\n%s = damp(%s, %s)\n' % (nm[0], nm[0], nm[1], nm[0], x)) + target['text']
+                target['funcs'] = True
         hist = []
         for _ in range(rng.randint(0, 6)):
             op = rng.choice(['build_solve', 'build_only', 'failed_build', 'other_solver', 'failed_solver',
@@ -119,6 +128,8 @@ class C17(object):
             hist.append({'op': op, 'name': rng.choice(BOOKS + ['REG2']), 'maxtime': rng.randint(1, 4)})
         settings = {'logging': rng.random() < 0.5, 'preregister': rng.random() < 0.5,
                     'trace': rng.choice([None, None, 1, 2]), 'resolves': rng.choice([0, 0, 1, 2, 3])}
+        if target.get('funcs') and rng.random() < 0.7:
+            settings['trace'] = 1
         return {'kind': 'history', 'target': target, 'history': hist, 'settings': settings}
 
     # ------------------------------------------------------------------------------------------
